@@ -32,6 +32,32 @@ CHECKS = {
                      "TLC against both brute force and the modelled design.",
                 technique="TLC model checking of the design against brute force; spec->code replay; code->spec trace validation incl. private state",
                 ref="§6 C03"),
+    "C07": dict(engine="Hilbert/HilbertSkilling/MC_Hilbert/Trace_Hilbert",
+                text="TLC checks the finite transducer lemma L1-L4 (from which bijectivity, unit steps, corners and refinement follow for "
+                     "every order p by the written induction), transducer = textbook recursion, and the transcription of the Skilling "
+                     "algorithm against both (n = 2) and against the property itself (n = 1, 3); the code's tables and sampled cells up "
+                     "to p = 31 are logged as bit / digit sequences and validated by TLC.",
+                technique="TLC model checking of the algorithm transcription + finite induction lemma; code->spec trace validation on bit/digit sequences",
+                ref="§6 C07"),
+    "C13": dict(engine="SPMeasure/SPMeasureImpl/MC_Measure/Trace_Measure",
+                text="TLC checks bounds_interleaved over (values, outer offsets) against the tight-extent oracle on every element of the "
+                     "families (non-finite coordinates, empty, degenerate); states replayed on all array types x subtypes x images x 11 "
+                     "derivations (bounds, total_bounds(_x/_y), GeoSeries, sindex, Dask); random arrays validated by TLC.",
+                technique="TLA+ oracle + transcription model-checked; spec->code replay over derivations; code->spec trace validation",
+                ref="§6 C13"),
+    "C14": dict(engine="SPMeasure/SPMeasureImpl/MC_Measure/Trace_Measure",
+                text="TLC checks the compute_area / compute_line_length transcriptions against shoelace / squared-segment-length oracles; "
+                     "states replayed (area exact, length exact when Pythagorean, boundary = rings, scalar = array, translations) and "
+                     "random Pythagorean paths validated by TLC.",
+                technique="TLA+ oracle + transcription model-checked; spec->code replay; code->spec trace validation",
+                note="Lengths of non-Pythagorean segments are compared to math.fsum(sqrt) at 1e-12 relative outside the model. ",
+                ref="§6 C14"),
+    "C15": dict(engine="SPMeasure/SPMeasureImpl/MC_Measure/Trace_Measure",
+                text="TLC proves on every element of the scope that the oracle Oriented is idempotent, keeps rings up to reversal, fixes "
+                     "signs and area, and that the orient_polygons transcription equals it; replayed on Polygon/MultiPolygon arrays "
+                     "(missing anywhere, slices, subtypes, images down to 2^-30) incl. input immutability and intersection invariance.",
+                technique="TLA+ oracle with theorems checked by TLC + transcription; spec->code replay; code->spec trace validation",
+                ref="§6 C15"),
 }
 
 NOT_YET = {}
